@@ -6,7 +6,7 @@ once faults stop.  Oracle: registries unchanged by a rejected call; next success
 ops and failed writes, in a fresh fork; after the last fault the retry returns normally in that one call (bounded liveness).
 """
 import copy
-from .. import gen, genmeta, project as P
+from .. import values, gen, genmeta, project as P
 from . import common as C
 from .c14 import _locate
 
@@ -165,6 +165,22 @@ def gen_case(rng, tier, avoid):
              'kwargs': rng.choice([{'creation_time': 'garbage'}, {'origin_reference': 'x'}, {'file_type': 12}])},
             {'op': 'add', 'lf': lfi['lf'], 'kind': 'origin', 'h': 'o_after_rng', 'name': 'ORIGIN-AFTER', 'c': 0, 'rng_keep': True,
              'kwargs': {'creation_time': {'$dt': '2020-03-04T05:06:07', 'tz': None}}}]
+    if rng.random() < 0.25:
+        # the defining origin comes late (objects added before it take its reference then), and a FIRST add_origin - asking for
+        # an explicit reference - was rejected before it: nothing of the rejected call may show in what the objects reference
+        oi = next(i for i, op in enumerate(ops) if op.get('op') == 'add' and op['kind'] == 'origin' and not op.get('bad'))
+        oop = ops[oi]
+        if not any(op.get('kind') == 'origin' or op.get('op') != 'add' for op in ops[oi + 1:]):
+            rest = ops[oi + 1:]
+            lim = next((i for i, op in enumerate(rest) if oop['h'] in values.refs_in(op.get('kwargs'))), len(rest))
+            cut = rng.randint(min(1, lim), lim)
+            rej = {'op': 'add', 'lf': lfi['lf'], 'kind': 'origin', 'h': 'rej_first_origin', 'name': 'REJECTED-FIRST', 'c': 0,
+                   'bad': 'first_origin_rejected',
+                   'kwargs': dict(rng.choice([{'creation_time': 'garbage'}, {'file_type': 12}, {'run_number': 'x'}]),
+                                  origin_reference=rng.choice([77, 5, 200]))}
+            head = rest[:cut]
+            head.insert(rng.randint(0, len(head)), rej)
+            ops = ops[:oi] + head + [oop] + rest[cut:]
     mode = rng.choice(['plain', 'io_fault', 'io_fault', 'interrupt', 'data_error'])
     ext = None
     if rng.random() < 0.25 and mode != 'data_error':
